@@ -18,7 +18,9 @@ LoginGuards(e) ==
     {<<"G_C07_Directory", acc => G_C07_Directory(u, pw)>>,
      <<"G_C07_Cache", acc => G_C07_Cache(u, pw)>>,
      <<"G_C07_MustAccept", MustAccept(u, pw) => acc>>,
-     <<"G_C07_Refresh", (AnyAnswers /\ ~dbOut /\ acc) => (e.post.row[u].present /\ e.post.row[u].pw = pw /\ ~e.post.row[u].expired /\ e.post.row[u].intact)>>,
+     <<"G_C07_Refresh", (AnyAnswers /\ ~dbOut /\ acc) => (e.post.row[u].present /\ e.post.row[u].pw = pw /\ ~e.post.row[u].expired /\ e.post.row[u].intact /\
+                                                        \* "acceptance refreshes": the entry is as young as this login
+                                                        ("age" \in DOMAIN e.post.row[u] => e.post.row[u].age = 0))>>,
      <<"G_C07_Evict", (AnyAnswers /\ ~dbOut /\ ~acc /\ row[u] # NoRow /\ row[u].pw = pw /\ row[u].intact /\ ~row[u].expired) => ~e.post.row[u].present>>,
      <<"G_C07_OthersUntouched", \A v \in Users \ {u} : e.post.row[v].present = (row[v] # NoRow)>>}
 
